@@ -32,7 +32,7 @@ func runC15(c *Ctx) {
 	c03Rebuild(c)
 	c03Identities(c)
 	c.ruleAlias = nil
-	c.rule("C15-R8", "PAIR: every Lock/RLock in pkg/jit is released on every path to a return")
+	c.rule("C15-R8", "PAIR: every Lock/RLock in pkg/jit is released on every path to a return; REACQ: no method calls, while it holds its receiver's mutex, a method of the same receiver that acquires that mutex again (sync mutexes are not re-entrant; a second RLock blocks once a writer waits)")
 	c.Sites["C15-R8#acquire-sites"] = lockReleaseAudit(c, "C15-R8", []string{"pkg/jit"})
 	c.floor("C15-R8", 10)
 	c.rule("C15-R1", "LCK: CompilationUnit.{Bytecode,Tier,CompiledAt,ExecutionCount,LastExecuted} and JITCompiler.units only under unitsMux (writes exclusive); TypeSpecialization.{IsValid,MissCount,Bytecode} and SpecializationCache.specializations under its mutex; JITCompiler.stats under statsMux; hotPathThreshold/recompileWindow under configMux; deopt records under the tracker mutex")
